@@ -269,8 +269,8 @@ def c14_vep_ins_between_q(genome: List[int], gs: int, ge: int, ts: int, te: int,
 
 
 @cond('C14', bounds='insertion reported on one anchor base (allele of 2..3 bases starting or ending with the '
-      'reference base), both strands; ' + _BQ, encodes=ENC, codes=CODES, tokens=True, timeout=600)
-def c14_vep_ins_anchor_q(genome: List[int], gs: int, ge: int, ts: int, te: int, plus: bool, nf: bool,
+      'reference base), plus strand; ' + _BQ, encodes=ENC, codes=CODES, tokens=True, timeout=600)
+def c14_vep_ins_anchor_plus_q(genome: List[int], gs: int, ge: int, ts: int, te: int, nf: bool,
                        pos: int, allele: List[int], j: int) -> int:
     """
     pre: len(genome) == 5
@@ -279,7 +279,21 @@ def c14_vep_ins_anchor_q(genome: List[int], gs: int, ge: int, ts: int, te: int, 
     pre: all(65 <= c <= 90 for c in allele)
     post: _ >= 0
     """
-    return _check(genome, gs, ge, ts, te, 1 if plus else -1, nf, pos, pos, allele, j)
+    return _check(genome, gs, ge, ts, te, 1, nf, pos, pos, allele, j)
+
+
+@cond('C14', bounds='insertion reported on one anchor base (allele of 2..3 bases starting or ending with the '
+      'reference base), minus strand; ' + _BQ, encodes=ENC, codes=CODES, tokens=True, timeout=600)
+def c14_vep_ins_anchor_minus_q(genome: List[int], gs: int, ge: int, ts: int, te: int, nf: bool,
+                       pos: int, allele: List[int], j: int) -> int:
+    """
+    pre: len(genome) == 5
+    pre: all(65 <= c <= 90 for c in genome)
+    pre: len(allele) == 2
+    pre: all(65 <= c <= 90 for c in allele)
+    post: _ >= 0
+    """
+    return _check(genome, gs, ge, ts, te, -1, nf, pos, pos, allele, j)
 
 
 @cond('C14', bounds='substitution of 3 bases by 1..3 bases, both strands; ' + _BQ, encodes=ENC, codes=CODES,
